@@ -28,15 +28,19 @@ for d in sorted(glob.glob(os.path.join(S, '*/'))):
     if os.path.exists(mp):
         json.dump(meta, open(mp, 'w'), indent=1)
     prop = meta.get('property') or ''
+    if meta.get('obsolete'):
+        title = '[obsolete: ' + meta['obsolete'][:90] + '...] ' + title
+        det, miss = ['(n/a)'], []
     rows.append((sid, prop, title, det, miss, err, meta.get('demo_mode', '')))
 lines = ['| seed | property | change | caught by (quick tier) | run, silent |', '|---|---|---|---|---|']
 for sid, prop, title, det, miss, err, mode in rows:
     lines.append('| %s | %s | %s | %s | %s |' % (
         sid, prop, title[:160], ', '.join(x.split('@')[0] for x in det) or '—',
         ', '.join(x.split('@')[0] for x in miss + err) or ''))
-own = sum(1 for sid, prop, t, det, m, e, _ in rows if any(x.startswith(prop + '@') for x in det))
-anyd = sum(1 for r in rows if r[3])
-summary = '%d seeded changes; %d caught by at least one check, %d by the check of the property they were written against.' % (len(rows), anyd, own)
+live = [r for r in rows if r[3] != ['(n/a)']]
+own = sum(1 for sid, prop, t, det, m, e, _ in live if any(x.startswith(prop + '@') for x in det))
+anyd = sum(1 for r in live if r[3])
+summary = '%d seeded changes (%d still valid demonstrations against the current /repo HEAD); %d caught by at least one check, %d by the check of the property they were written against.' % (len(rows), len(live), anyd, own)
 table = summary + '\n\n' + '\n'.join(lines) + '\n'
 open(os.path.join(S, 'README.md'), 'w').write(
     '# Seeded changes\n\nEach directory holds patch.diff (against /repo HEAD at the time), the demonstration, notes and meta.json.\n'
